@@ -24,8 +24,27 @@ package meta
 // ---- C43: a component's recorded mode changes only when the switch succeeded.
 //@ callrule c43_meta_collaborators in (*DB).SetMode
 //@   property C43
-//@   callee (*metabase.DB).Close, (*metabase.DB).Open, (*metabase.DB).Init, (mode.Mode).*
+//@   callee (*metabase.DB).Close, (*metabase.DB).Init, (mode.Mode).String
 //@   pureeffect
+// (the mode predicates are bit tests of the mode value: the same question gets the same answer)
+//@ callrule c43_mode_read_only_bit in (*DB).SetMode
+//@   property C43
+//@   callee (mode.Mode).ReadOnly
+//@   pureeffect
+//@   defines result == (self & mode.ReadOnly != 0)
+//@ callrule c43_mode_no_metabase_bit in (*DB).SetMode
+//@   property C43
+//@   callee (mode.Mode).NoMetabase
+//@   pureeffect
+//@   defines result == (self & mode.Degraded != 0)
+// Open records the read-only mode itself: only when the database really was opened.
+//@ callrule c43_open_collaborators in (*DB).Open
+//@   property C43
+//@   callee util.MkdirAllX, filepath.Dir, (*zap.Logger).*, zap.*, fmt.Errorf, (*metabase.DB).openBolt
+//@   pureeffect
+//@ func (*DB).Open
+//@   property C43
+//@   ensures [mode_recorded_only_by_a_successful_read_only_open] db.mode == old(db.mode) || (err == nil && readOnly && db.mode == mode.ReadOnly)
 //@ func (*DB).SetMode
 //@   property C43
 //@   ensures [recorded_mode_is_the_new_one_on_success] err == nil ==> db.mode == m
